@@ -2,14 +2,31 @@ package c10
 
 // World of one C10 history: a fresh app.TestApp with a working EVM (ethermint
 // genesis, fee market, block proposer), the real compiled ERC20 contracts of
-// x/evmutil/types deployed through the keeper, users that own both an sdk
-// account and the EVM address with the same 20 bytes, and the observation
-// functions (bank, raw registry store, raw ERC20 storage slots cross-checked
-// against the keeper's EVM query helpers of erc20.go).
+// x/evmutil/types deployed through the keeper plus one adversarial ERC20 (test
+// data: hand-assembled bytecode whose transfer() grants the sender an allowance
+// over the recipient's tokens and emits Approval), users that own both an sdk
+// account and the EVM address with the same 20 bytes, the zero address, and the
+// observation functions (bank, raw registry store, parameters read back from the
+// keeper, raw ERC20 storage slots cross-checked against the keeper's EVM query
+// helpers of erc20.go).
+//
+// Notes for maintainers (measured):
+//   - one keeper / one msg server instance serves the whole history, as on a node:
+//     messages go through the app's MsgServiceRouter (the instance registered by the
+//     module), direct calls through a copy of app.evmutilKeeper (reference-typed
+//     fields of the keeper are shared between the copies);
+//   - every operation / transaction runs on a cached context that is discarded on
+//     error, which is what baseapp does with a failed transaction;
+//   - CallEVM needs the sender's auth account to exist (GetSequence): the zero
+//     address has none until coins are sent to it, so it never signs here;
+//   - OpenZeppelin layout: slot 0 _balances, slot 1 _allowances, slot 2 _totalSupply;
+//     the adversarial token keeps balance[a] at slot uint(a), allowance[o][s] at
+//     keccak(pad32(o) ++ pad32(s)) and has no total supply.
 
 import (
 	. "kavaverif/lib"
 
+	"encoding/hex"
 	"fmt"
 	"math/big"
 
@@ -37,30 +54,43 @@ const (
 	nUsers  = 4
 	accM    = 4 // the evmutil module account (bank side) / types.ModuleEVMAddress (EVM side)
 	accHard = 5 // another module account: blocked as a recipient of coins, has no key
-	nAcc    = 6
-	nPair   = 3
-	maxCtr  = 8 // pair contracts + at most one wrapped contract per cosmos denom that can be allowed
+	accZero = 6 // 0x0000000000000000000000000000000000000000 / the sdk address of 20 zero bytes
+	nAcc    = 7
+	nPair   = 4
+	// ids >= noCodeBase name addresses without code (never reached by the deployment counter)
+	noCodeBase = 100
 )
 
-// denoms by model index
 // denoms by model index: 0..6 the real ones, then look-alikes of every pair denom and of
-// every cosmos denom that can be allowed (a case variant and a prefix/suffix variant each).
+// every cosmos denom that can be allowed (a case variant and a prefix/suffix variant each),
+// then the denom of the adversarial pair.
 // A look-alike is an ordinary bank denom: it is never a pair denom, never a bep3 asset,
 // never on the allow list, so every conversion of it must be refused.
 var denoms = []string{"bnb", "btcb", "erc20/usdc", "hard", "usdx", "xrpb", "xyz",
-	"BNB", "bnbx", "BTCB", "btc", "ERC20/USDC", "erc20/usd", "HARD", "hardx", "USDX", "usd", "XRPB", "xrpbx"}
+	"BNB", "bnbx", "BTCB", "btc", "ERC20/USDC", "erc20/usd", "HARD", "hardx", "USDX", "usd", "XRPB", "xrpbx",
+	"erc20/rfnd"}
 
 const (
-	nDenom    = 19
+	nDenom    = 20
 	nRealDen  = 7
 	firstLook = 7
+	lastLook  = 18
+	denRfnd   = 19
 )
+
+func isLook(d int) bool { return d >= firstLook && d <= lastLook }
 
 // lookalikes[d] = indexes of the look-alike denoms of real denom d
 var lookalikes = map[int][]int{0: {7, 8}, 1: {9, 10}, 2: {11, 12}, 3: {13, 14}, 4: {15, 16}, 5: {17, 18}}
 
-// universe of EVM-native conversion pairs: pair contract id -> denom index
-var pairDenom = []int{0, 2, 1} // contract 0 <-> bnb (bep3), 1 <-> erc20/usdc, 2 <-> btcb (bep3)
+// the table of EVM-native conversion pairs governance chooses from: pair contract id -> denom index
+// contract 0 <-> bnb (bep3), 1 <-> erc20/usdc, 2 <-> btcb (bep3), 3 <-> erc20/rfnd (adversarial bytecode)
+var pairDenom = []int{0, 2, 1, denRfnd}
+
+// evilCtr[c]: table contract c runs the adversarial bytecode
+var evilCtr = []bool{false, false, false, true}
+
+func isEvil(c int) bool { return c >= 0 && c < nPair && evilCtr[c] }
 
 func padBools(b []bool) []bool {
 	out := make([]bool, nDenom)
@@ -71,10 +101,15 @@ func padBools(b []bool) []bool {
 // the keeper's bep3 denoms that occur here (bnb, btcb, xrpb): exact names only
 var isBep3 = padBools([]bool{true, true, false, false, false, true, false})
 
-// cosmos denoms for which token metadata exists (can be put on the allow list)
+// cosmos denoms the generator puts on the allow list
 var allowable = padBools([]bool{true, false, false, true, true, true, false})
 
 var k10 = Pow10(10)
+
+// refundableInitCode is the creation code of the adversarial token (an input of the check, not
+// part of it): selectors balanceOf, mint (open to anybody, unchecked), transfer (moves the tokens,
+// sets allowance[to][sender] = amount, logs Transfer and Approval), transferFrom; anything else reverts.
+const refundableInitCode = "61011d8061000d6000396000f360003560e01c806370a082311461003757806340c10f1914610044578063a9059cbb1461005257806323b872dd146100da575b600080fd5b6004355460005260206000f35b602435600435805482019055005b60243533548181106100325781900333556004358054820181558060005233602052816040600020558160005280337fddf252ad1be2c89b69c2b068fc378daa952ba7f163c4a11628f55a4df523b3ef60206000a333907f8c5be1e5ebec7d5bd14f71427d1e84f3dd0314c0f7b2291e5b200ac8c7c3b92560206000a3600160005260206000f35b6044356004358060005233602052604060002080548381106100325783900390558054828110610032578290039055602435805482019055600160005260206000f3"
 
 type world struct {
 	tApp   app.TestApp
@@ -82,14 +117,10 @@ type world struct {
 	k      evmutilkeeper.Keeper
 	bank   bankkeeper.Keeper
 	bankMs banktypes.MsgServer
-	ms     evmutiltypes.MsgServer
 	addrs  []sdk.AccAddress
 	eaddrs []common.Address
 	ctr    []evmutiltypes.InternalEVMAddress // contract id -> address (pairs first, then wrapped in order of deployment)
 	ctrID  map[common.Address]int
-	// current params (model view)
-	enabled []bool // per pair contract
-	allowed []bool // per denom
 }
 
 func fixedKey(b byte) *ethsecp256k1.PrivKey {
@@ -121,7 +152,7 @@ func setup() *world {
 			sdk.NewInt64Coin("ukava", 1_000_000_000),
 		)
 		// look-alike denoms, held through the bank by some users
-		for d := firstLook; d < nDenom; d++ {
+		for d := firstLook; d <= lastLook; d++ {
 			if (d+i)%2 == 0 {
 				funds = funds.Add(sdk.NewInt64Coin(denoms[d], int64(100*(i+1)+d)))
 			}
@@ -176,11 +207,11 @@ func setup() *world {
 	ak := tApp.GetAccountKeeper()
 	w := &world{tApp: tApp, ctx: ctx, k: tApp.GetEvmutilKeeper(), bank: tApp.GetBankKeeper(), ctrID: map[common.Address]int{}}
 	w.bankMs = bankkeeper.NewMsgServerImpl(w.bank)
-	w.ms = evmutilkeeper.NewMsgServerImpl(w.k)
 	w.addrs = make([]sdk.AccAddress, nAcc)
 	copy(w.addrs, users)
 	w.addrs[accM] = ak.GetModuleAccount(ctx, evmutiltypes.ModuleName).GetAddress()
 	w.addrs[accHard] = ak.GetModuleAccount(ctx, "hard").GetAddress()
+	w.addrs[accZero] = sdk.AccAddress(make([]byte, 20))
 	for _, a := range w.addrs {
 		w.eaddrs = append(w.eaddrs, common.BytesToAddress(a.Bytes()))
 	}
@@ -188,19 +219,48 @@ func setup() *world {
 		panic("module EVM address mismatch")
 	}
 
-	// the universe of EVM-native pair contracts: the real compiled ERC20MintableBurnable, owned by the module
+	// the table of EVM-native pair contracts: the real compiled ERC20MintableBurnable, owned by
+	// the module, and the adversarial token
+	initCode, err := hex.DecodeString(refundableInitCode)
+	if err != nil {
+		panic(err)
+	}
 	for i := 0; i < nPair; i++ {
-		addr, err := w.k.DeployTestMintableERC20Contract(ctx, fmt.Sprintf("TOK%d", i), fmt.Sprintf("TOK%d", i), 18)
-		if err != nil {
-			panic(err)
+		var addr evmutiltypes.InternalEVMAddress
+		if evilCtr[i] {
+			nonce, err := ak.GetSequence(ctx, evmutiltypes.ModuleEVMAddress.Bytes())
+			if err != nil {
+				panic(err)
+			}
+			if _, err := w.k.CallEVMWithData(ctx, evmutiltypes.ModuleEVMAddress, nil, initCode); err != nil {
+				panic(err)
+			}
+			addr = evmutiltypes.NewInternalEVMAddress(crypto.CreateAddress(evmutiltypes.ModuleEVMAddress, nonce))
+		} else {
+			addr, err = w.k.DeployTestMintableERC20Contract(ctx, fmt.Sprintf("TOK%d", i), fmt.Sprintf("TOK%d", i), 18)
+			if err != nil {
+				panic(err)
+			}
+		}
+		if !w.hasCode(ctx, addr.Address) {
+			panic("pair contract without code")
 		}
 		w.ctrID[addr.Address] = len(w.ctr)
 		w.ctr = append(w.ctr, addr)
 	}
-	w.enabled = []bool{true, true, false}
-	w.allowed = padBools([]bool{false, false, false, true, false, true, false})
-	w.setParams()
+	// genesis parameters: pairs 0, 1 and the adversarial pair enabled; hard and xrpb allowed
+	p := evmutiltypes.NewParams(
+		evmutiltypes.ConversionPairs{w.pairOf(0), w.pairOf(1), w.pairOf(3)},
+		evmutiltypes.AllowedCosmosCoinERC20Tokens{tokenMeta(3), tokenMeta(5)})
+	if err := p.Validate(); err != nil {
+		panic(err)
+	}
+	w.k.SetParams(w.ctx, p)
 	return w
+}
+
+func (w *world) pairOf(c int) evmutiltypes.ConversionPair {
+	return evmutiltypes.NewConversionPair(w.ctr[c], denoms[pairDenom[c]])
 }
 
 func tokenMeta(d int) evmutiltypes.AllowedCosmosCoinERC20Token {
@@ -208,60 +268,95 @@ func tokenMeta(d int) evmutiltypes.AllowedCosmosCoinERC20Token {
 	return evmutiltypes.NewAllowedCosmosCoinERC20Token(name, "Kava-wrapped "+name, "k"+name, 6)
 }
 
-func (w *world) setParams() {
-	var pairs evmutiltypes.ConversionPairs
-	for c := 0; c < nPair; c++ {
-		if w.enabled[c] {
-			pairs = append(pairs, evmutiltypes.NewConversionPair(w.ctr[c], denoms[pairDenom[c]]))
-		}
+func (w *world) hasCode(ctx sdk.Context, a common.Address) bool {
+	acc := w.tApp.GetEvmKeeper().GetAccount(ctx, a)
+	if acc == nil {
+		return false
 	}
-	var toks evmutiltypes.AllowedCosmosCoinERC20Tokens
-	for d := 0; d < nDenom; d++ {
-		if w.allowed[d] && allowable[d] {
-			toks = append(toks, tokenMeta(d))
-		}
-	}
-	p := evmutiltypes.NewParams(pairs, toks)
-	if err := p.Validate(); err != nil {
-		panic(err)
-	}
-	w.k.SetParams(w.ctx, p)
+	return len(w.tApp.GetEvmKeeper().GetCode(ctx, common.BytesToHash(acc.CodeHash))) > 0
 }
 
 // ------------------------------------------------------------ raw ERC20 storage
 
-// OpenZeppelin ERC20 layout: slot 0 _balances, slot 1 _allowances, slot 2 _totalSupply.
-func balanceSlot(a common.Address) common.Hash {
-	buf := make([]byte, 64)
-	copy(buf[12:32], a.Bytes())
-	return crypto.Keccak256Hash(buf)
+func pad32(a common.Address) []byte {
+	buf := make([]byte, 32)
+	copy(buf[12:], a.Bytes())
+	return buf
+}
+
+func (w *world) slot(ctx sdk.Context, c int, key common.Hash) *big.Int {
+	h := w.tApp.GetEvmKeeper().GetState(ctx, w.ctr[c].Address, key)
+	return new(big.Int).SetBytes(h.Bytes())
 }
 
 func (w *world) rawBalance(ctx sdk.Context, c int, a common.Address) *big.Int {
-	h := w.tApp.GetEvmKeeper().GetState(ctx, w.ctr[c].Address, balanceSlot(a))
-	return new(big.Int).SetBytes(h.Bytes())
+	if isEvil(c) {
+		return w.slot(ctx, c, common.BytesToHash(a.Bytes()))
+	}
+	return w.slot(ctx, c, crypto.Keccak256Hash(append(pad32(a), make([]byte, 32)...)))
 }
 
 func (w *world) rawTotal(ctx sdk.Context, c int) *big.Int {
-	h := w.tApp.GetEvmKeeper().GetState(ctx, w.ctr[c].Address, common.BigToHash(big.NewInt(2)))
-	return new(big.Int).SetBytes(h.Bytes())
+	if isEvil(c) {
+		return big.NewInt(0) // the adversarial token keeps no total supply
+	}
+	return w.slot(ctx, c, common.BigToHash(big.NewInt(2)))
+}
+
+func (w *world) rawAllowance(ctx sdk.Context, c int, owner, spender common.Address) *big.Int {
+	if isEvil(c) {
+		return w.slot(ctx, c, crypto.Keccak256Hash(append(pad32(owner), pad32(spender)...)))
+	}
+	one := make([]byte, 32)
+	one[31] = 1
+	inner := crypto.Keccak256(append(pad32(owner), one...))
+	return w.slot(ctx, c, crypto.Keccak256Hash(append(pad32(spender), inner...)))
 }
 
 // ------------------------------------------------------------ snapshot
 
 type snap struct {
-	bal [][]*big.Int // [acc][denom]
-	sup []*big.Int   // [denom]
-	erc [][]*big.Int // [contract][acc]
-	tot []*big.Int   // [contract]
-	reg []int        // [denom] -> contract id or -1 (raw store iteration)
-	n   int          // number of deployed contracts known (pairs + registry)
+	bal     [][]*big.Int   // [acc][denom]
+	sup     []*big.Int     // [denom]
+	erc     [][]*big.Int   // [contract][acc]
+	tot     []*big.Int     // [contract]
+	allow   [][][]*big.Int // [contract][owner][spender]
+	reg     []int          // [denom] -> contract id or -1 (raw store iteration)
+	n       int            // number of deployed contracts known (pairs + registry)
+	pairs   [][2]int       // params.EnabledConversionPairs read back: (contract id, denom index)
+	allowed []int          // params.AllowedCosmosDenoms read back: denom indexes, in order
+	// what the parameters contain that no model value stands for (a monitor fails on any of these)
+	badParams string
 }
 
 func denomIndex(s string) int {
 	for i, d := range denoms {
 		if d == s {
 			return i
+		}
+	}
+	return -1
+}
+
+func dummyContract(c int) evmutiltypes.InternalEVMAddress {
+	return evmutiltypes.NewInternalEVMAddress(common.BytesToAddress([]byte{0xde, 0xad, byte(c)}))
+}
+
+// contractAddr: the address of contract id c; ids that are not deployed name addresses without code
+func (w *world) contractAddr(c int) evmutiltypes.InternalEVMAddress {
+	if c >= 0 && c < len(w.ctr) {
+		return w.ctr[c]
+	}
+	return dummyContract(c)
+}
+
+func (w *world) contractID(a common.Address) int {
+	if id, ok := w.ctrID[a]; ok {
+		return id
+	}
+	for k := 0; k < 256; k++ {
+		if dummyContract(k).Address == a {
+			return k
 		}
 	}
 	return -1
@@ -304,8 +399,15 @@ func (w *world) readRegistry(ctx sdk.Context) []int {
 	return reg
 }
 
-func (w *world) snapshot() *snap {
-	ctx := w.ctx
+// forget drops the contract ids assigned since the table had n entries (a discarded transaction)
+func (w *world) forget(n int) {
+	for len(w.ctr) > n {
+		delete(w.ctrID, w.ctr[len(w.ctr)-1].Address)
+		w.ctr = w.ctr[:len(w.ctr)-1]
+	}
+}
+
+func (w *world) snapshot(ctx sdk.Context) *snap {
 	s := &snap{}
 	s.reg = w.readRegistry(ctx)
 	s.n = len(w.ctr)
@@ -321,18 +423,73 @@ func (w *world) snapshot() *snap {
 	}
 	for c := 0; c < s.n; c++ {
 		row := make([]*big.Int, nAcc)
+		al := make([][]*big.Int, nAcc)
 		for a := 0; a < nAcc; a++ {
 			row[a] = w.rawBalance(ctx, c, w.eaddrs[a])
+			al[a] = make([]*big.Int, nAcc)
+			for sp := 0; sp < nAcc; sp++ {
+				al[a][sp] = w.rawAllowance(ctx, c, w.eaddrs[a], w.eaddrs[sp])
+			}
 		}
 		s.erc = append(s.erc, row)
+		s.allow = append(s.allow, al)
 		s.tot = append(s.tot, w.rawTotal(ctx, c))
+	}
+	// the parameters as the keeper reads them
+	p := w.k.GetParams(ctx)
+	for _, pr := range p.EnabledConversionPairs {
+		c, d := -1, denomIndex(pr.Denom)
+		if len(pr.KavaERC20Address) == common.AddressLength && common.BytesToAddress(pr.KavaERC20Address) != (common.Address{}) {
+			c = w.contractID(common.BytesToAddress(pr.KavaERC20Address))
+		}
+		if c < 0 || d < 0 {
+			s.badParams = fmt.Sprintf("enabled pair {%x %q} has no well-formed address/denom", []byte(pr.KavaERC20Address), pr.Denom)
+			continue
+		}
+		s.pairs = append(s.pairs, [2]int{c, d})
+	}
+	for _, t := range p.AllowedCosmosDenoms {
+		d := denomIndex(t.CosmosDenom)
+		if d < 0 {
+			s.badParams = fmt.Sprintf("allowed token %q is no known denom", t.CosmosDenom)
+			continue
+		}
+		s.allowed = append(s.allowed, d)
 	}
 	return s
 }
 
+func (s *snap) isAllowed(d int) bool {
+	for _, x := range s.allowed {
+		if x == d {
+			return true
+		}
+	}
+	return false
+}
+
+// pairOfDenom / denomOfCtr: the first enabled pair with that denom / that contract (-1: none)
+func (s *snap) pairOfDenom(d int) int {
+	for _, p := range s.pairs {
+		if p[1] == d {
+			return p[0]
+		}
+	}
+	return -1
+}
+
+func (s *snap) denomOfCtr(c int) int {
+	for _, p := range s.pairs {
+		if p[0] == c {
+			return p[1]
+		}
+	}
+	return -1
+}
+
 // queryBalance / queryTotal go through the keeper's EVM query helpers (erc20.go).
-func (w *world) queryBalance(c, a int) *big.Int {
-	cctx, _ := w.ctx.CacheContext()
+func (w *world) queryBalance(ctx sdk.Context, c, a int) *big.Int {
+	cctx, _ := ctx.CacheContext()
 	v, err := w.k.QueryERC20BalanceOf(cctx, w.ctr[c], evmutiltypes.NewInternalEVMAddress(w.eaddrs[a]))
 	if err != nil {
 		panic(fmt.Sprintf("QueryERC20BalanceOf(%d,%d): %v", c, a, err))
@@ -340,8 +497,8 @@ func (w *world) queryBalance(c, a int) *big.Int {
 	return v
 }
 
-func (w *world) queryTotal(c int) *big.Int {
-	cctx, _ := w.ctx.CacheContext()
+func (w *world) queryTotal(ctx sdk.Context, c int) *big.Int {
+	cctx, _ := ctx.CacheContext()
 	v, err := w.k.QueryERC20TotalSupply(cctx, w.ctr[c])
 	if err != nil {
 		panic(fmt.Sprintf("QueryERC20TotalSupply(%d): %v", c, err))
